@@ -52,7 +52,11 @@ static void case_nudge(const Args &a, long idx, bool wantDesc, CaseResult &res) 
     ll maxx = xs.back() + 30, maxy = ys.back() + 30;
     for (int c = 0; c < nc; c++) {
         End e[2];
-        for (int k = 0; k < 2; k++) { if (R.coin(0.75)) { e[k].shape = (int)R.ri(0, (long)S.shapes.size() - 1); e[k].p = IP{0, 0}; } else { e[k].shape = -1; int t = 0; do { e[k].p = IP{R.ri(5, maxx), R.ri(5, maxy)}; } while (!pointFree(S, e[k].p, 2) && ++t < 200); if (t >= 200) e[k].shape = 0; } }
+        for (int k = 0; k < 2; k++) { if (R.coin(0.75)) { e[k].shape = (int)R.ri(0, (long)S.shapes.size() - 1); e[k].p = IP{0, 0}; } else { e[k].shape = -1; int t = 0; bool aligned = R.coin(0.45);
+                do { e[k].p = IP{R.ri(5, maxx), R.ri(5, maxy)};
+                     // often put a free end on the line of some shape side: its (immovable) end segment is then collinear with routes that hug that side
+                     if (aligned) { const ShapeSpec &sp = S.shapes[R.ri(0, (long)S.shapes.size() - 1)]; ll x0, y0, x1, y1; bbox(sp.poly, x0, y0, x1, y1); int w = (int)R.ri(0, 3); if (w == 0) e[k].p.x = x0; else if (w == 1) e[k].p.x = x1; else if (w == 2) e[k].p.y = y0; else e[k].p.y = y1; }
+                } while (!pointFree(S, e[k].p, 2) && ++t < 200); if (t >= 200) e[k].shape = 0; } }
         if (e[0].shape >= 0 && e[0].shape == e[1].shape) { c--; if (R.coin(0.1)) c++; continue; }
         if (e[0].shape < 0 && e[1].shape < 0 && e[0].p == e[1].p) continue;
         ends.push_back({e[0], e[1]});
